@@ -349,3 +349,15 @@ def _new_sig(ex, args, ins, where):
     r = _u256_get(ex, args[0], where)
     s = _u256_get(ex, args[1], where)
     return Ptr(ex.new_obj(('sig', r, s)), ())
+
+
+# ------------------------------------------------------------------ globals initialised from curve parameters
+from core import GLOBAL_FIXUPS
+
+
+def _half_order(ex):
+    return Ptr(ex.new_obj(BigV(False, SECP_N >> 1)), ())
+
+
+GLOBAL_FIXUPS['txscript/v2.halfOrder'] = _half_order
+GLOBAL_FIXUPS['txscript.halfOrder'] = _half_order
